@@ -150,7 +150,7 @@ class Database(ImpExp):
         @param path:
         @return:
         """
-        if path[0] not in self.db:
+        if self.branch_key(path[0]) not in self.db:
             return
 
         if len(path) == 1:
